@@ -191,10 +191,14 @@ func RunBatch(property string, p Profile, verifSeed uint64, from, to int, mandat
 		// determinism: re-execute the recorded action list and compare
 		if detEvery > 0 && i%detEvery == 0 && r.Violation == nil && r.ToolError == "" {
 			out.DetChecked++
-			acts := r.Trace
-			r2 := Replay(r.Config, acts, Options{Target: property})
-			if r2.Digest != r.Digest {
+			if v := DeterminismCheck(r, Options{Target: property}); v != nil {
 				out.DetMismatch++
+				if property == "C19" {
+					out.TargetCount++
+					if len(out.Violations) < 4 {
+						out.Violations = append(out.Violations, ViolRec{RunIndex: i, RunSeed: r.RunSeed, Profile: p.Name, Config: r.Config, Actions: r.Trace, Violation: v, Digest: r.Digest})
+					}
+				}
 			}
 		}
 	}
